@@ -234,8 +234,15 @@ CLAIMS = {
              "length is resolved backwards through the log and proved to hold exactly the byte std::string has there "
              "(old text at the right offset / the right byte of the right source / the fill character) against a "
              "per-family specification table; operator==/!= are decided by exhaustive truth tables (complementary, "
-             "== means equal length and equal bytes). Results of the comparing/searching observers are decided only "
-             "as far as the rules listed in the evidence go; sprintf's text and std::string-iterator overloads are not decided.",
+             "== means equal length and equal bytes). The searching observers (44 overloads of find, rfind, "
+             "find_first/last_(not_)of, contains, starts_with, ends_with) are decided by a linear-search proof: no "
+             "candidate position before the first tested one, every tested position is a candidate, a result is "
+             "returned only at the tested position after its test (memcmp with the whole needle / element comparison / "
+             "strchr, identified from observation facts) succeeded, the scan advances by exactly one position only "
+             "after a failed test and ends only when no candidate is left - hence the result is the first/last matching "
+             "candidate, as in std::string. compare() (15 overloads) is decided as sign of memcmp over the common length, "
+             "else sign of the length difference. Not decided: sprintf's text, std::string-iterator overloads, the four "
+             "( const char*, pos, count) character-set overloads (nested loops).",
         note="trusted base: clang front end, extractor, cv/lin.py + cv/bounds.py + cv/boolshape.py, the std::string "
              "specification table in cv/props/c11.py; sources do not alias the destination",
         also=("engine B (boolshape.py)",),
